@@ -99,8 +99,8 @@ KindsStateless == {Src, MapK, SeqK, Nest(<<Src, SeqK>>, 1)}
 ScModes(u) == Sc(SeqsOver(KindsModes, 2), {2, 3}, {1, None}, {"abort"})
            \cup Sc(SeqsOver(KindsStateless, 2), {2, 3}, {1, 2}, {"inter"})
 ScModesThorough(u) == Sc(SeqsOver(KindsModes \cup {FC(None), FR(None), MapK, FC(0), FR(0), FC(2), FR(2), FiltK}, 2), 0..4, {1, 2, 3, None}, {"abort"})
-                   \cup Sc(SeqsOver(KindsModes, 3), 0..4, {1, 2, None}, {"abort"})
-                   \cup Sc(SeqsOver(KindsStateless \cup {WithM(Src, 0), FiltK}, 3), 0..4, {1, 2, 3, None}, {"inter"})
+                      \cup Sc(SeqsOver(KindsModes, 3), {0, 3, 4}, {1, 2, None}, {"abort"})
+                      \cup Sc(SeqsOver(KindsStateless \cup {WithM(Src, 0), FiltK}, 3), {0, 2, 4}, {1, 2, None}, {"inter"})
 ScAudit(u) == ScWide(u) \cup ScForms(u) \cup ScModes(u)
 ScAuditThorough(u) == ScWideThorough(u) \cup ScFormsThorough(u) \cup ScModesThorough(u)
 
